@@ -18,6 +18,10 @@ Programs
   pairs listed under `bounds` (the full alphabet at length 5 has 3e7 sequences; the bound on the number of
   branch tokens is what makes the longer lengths enumerable).
 
+Family `runs` (x86_32, both tiers): r = 4..8 NOPs, then k = 2..3 JZ rel8 back into the run - every k-tuple of targets
+0..r (all combinations and discovery orders) - then RET, entered at 0 and at r/2: one block receives several mid-block
+branch targets, each of which must start a block and be the destination of an edge (I8 / I9).
+
 Start offset: every token boundary 0..n-1 (family start0: offset 0 only).
 
 Options (families; each family is a complete product over the programs it names)
@@ -70,7 +74,8 @@ LEVEL = "exploration"
 ENGINE = "enum"
 RULE = ("every token sequence up to the length/branch-count bounds over {NOP, 2-byte ALU, RET, undecodable byte, JMP/JZ rel8 to "
         "every token boundary and every mid-token address, CALL rel32 to every boundary} (x86_32) and the delay-slot alphabet "
-        "(mips32l: thorough, and in quick every sequence of <= 3 tokens over {NOP, JR RA, B, BNE}), every start boundary, option families default / every single option / full option product on the "
+        "(mips32l: thorough, and in quick every sequence of <= 3 tokens over {NOP, JR RA, B, BNE}), every start boundary, plus runs "
+        "of 4-8 one-byte instructions followed by 2-3 conditional jumps back into the run (every target tuple), option families default / every single option / full option product on the "
         "short programs; a case is non-trivial when the resulting graph has at least two blocks or a bad block or was cut by an "
         "option; every (program, start, options) triple is enumerated once (distinct by construction), the number of distinct "
         "resulting graph shapes is reported per shard")
@@ -127,6 +132,18 @@ BOUNDS = {
                     "cross": [(1, 1), (2, 2), (3, 0)]},
     },
 }
+
+
+# family `runs` (x86_32, both tiers): a straight-line run of r one-byte instructions, then k conditional jumps back into
+# the run (every k-tuple of targets 0..r, i.e. every combination and every discovery order, the first jump's own
+# address included), then RET; entered at 0 and in the middle of the run.  One disassembled block receives several
+# mid-block branch targets.
+RUNS = {"run_lengths": (4, 5, 6, 7, 8), "jumps": (2, 3)}
+
+
+def run_programs(r, k):
+    for targets in itertools.product(range(r + 1), repeat=k):
+        yield (("N",),) * r + tuple(("Z", "b", t) for t in targets) + (("R",),)
 
 
 # ------------------------------------------------------------------------------------------------
@@ -759,7 +776,32 @@ def _new_stats():
     return st
 
 
+def _shard_runs(args):
+    _, arch, r, k, idx, nsh = args
+    st = _new_stats()
+    vs = []
+    sample = None
+    for i, prog in enumerate(run_programs(r, k)):
+        if i % nsh != idx:
+            continue
+        buf, offs = encode(arch, prog)
+        ref = Ref(arch, buf)
+        st["programs"] += 1
+        for s0 in (0, r // 2):
+            res = evaluate(arch, prog, s0, {}, ref, st)
+            if res and len(vs) < 400:
+                vs += res
+        if sample is None and idx == 0 and len(set(t[2] for t in prog if t[0] == "Z")) == k:
+            sample = {"arch": arch, "program": prog_str(prog), "bytes": buf.hex()}
+    shapes = st.pop("shapes")
+    st["distinct_graph_shapes_in_shard"] = len(shapes)
+    st["run_family_evaluations"] = st["n"]
+    return st, vs, sample
+
+
 def _shard(args):
+    if args[0] == "runs":
+        return _shard_runs(args)
     tier, arch, n, maxbr, idx, nsh = args
     kinds = KIND_SUBSET.get((tier, arch), KINDS)
     st = _new_stats()
@@ -800,6 +842,10 @@ def run(ctx):
             nsk = sum(1 for _ in skeletons(L, B, KIND_SUBSET.get((tier, arch), KINDS)))
             nsh = max(1, min(nsk, 16 if L <= 3 else (64 if L <= 4 else 256)))
             shards += [(tier, arch, L, B, i, nsh) for i in range(nsh)]
+    for r in RUNS["run_lengths"]:
+        for k in RUNS["jumps"]:
+            nsh = 2 if k == 2 else 8
+            shards += [("runs", "x86_32", r, k, i, nsh) for i in range(nsh)]
     res = ctx.pmap(_shard, shards)
     tot = {}
     samples = []
@@ -816,7 +862,8 @@ def run(ctx):
         "exhaustive": True,
         "bounds": {"tier": tier, "families(length,max_branch_tokens)": BOUNDS[tier], "path_truncation": PATH_K,
                    "x86_alphabet": "N A R U J>(b0..n|mid) Z>(b0..n|mid) C>b0..n", "mips_alphabet": "N A R U J>b Z>b C>b",
-                   "token_kind_subsets": {"%s/%s" % k: v for k, v in KIND_SUBSET.items()}},
+                   "token_kind_subsets": {"%s/%s" % k: v for k, v in KIND_SUBSET.items()},
+                   "runs_family": dict(RUNS, starts="0 and mid-run", targets="every tuple over 0..r", arch="x86_32")},
     }
     cov.update(tot)
     return cov
